@@ -108,3 +108,17 @@ spec fn tuple_idx_ok(len: nat, index: Value) -> bool {
 //@ contract Access::call
         requires args@.len() >= 2,
 //@ end
+
+// ---------------------------------------------------------------- Call (function application): check time and run time
+// `func` hands out only objects that ARE functions; `signature` (reached by posting a rule list, C18) and `call` unwrap
+// `as_callable()` on that promise.  An expression that applies something that is not a function is an error, not a panic.
+//@ contract Call::func
+        ensures
+            ret is Ok ==> (*(ret->Ok_0)).callable(),
+//@ end
+//@ contract Call::signature
+        ensures true,
+//@ end
+//@ contract Call::call
+        ensures true,
+//@ end
